@@ -360,18 +360,20 @@ func (vhost *VirtualHost) DeleteQueue(queueName string, ifUnused bool, ifEmpty b
 
 func (vhost *VirtualHost) deleteQueue(queueName string, ifUnused bool, ifEmpty bool, onlyAutoDelete bool) (uint64, error) {
 	vhost.quLock.Lock()
-	defer vhost.quLock.Unlock()
 
 	qu := vhost.getQueue(queueName)
 	if qu == nil {
+		vhost.quLock.Unlock()
 		return 0, errors.New("not found")
 	}
 	if onlyAutoDelete && !qu.IsAutoDelete() {
+		vhost.quLock.Unlock()
 		return 0, errors.New("not an auto-delete queue")
 	}
 
-	var length, err = qu.Delete(ifUnused, ifEmpty)
+	var length, cancelConsumers, err = qu.DeleteDeferred(ifUnused, ifEmpty)
 	if err != nil {
+		vhost.quLock.Unlock()
 		return 0, err
 	}
 
@@ -391,6 +393,12 @@ func (vhost *VirtualHost) deleteQueue(queueName string, ifUnused bool, ifEmpty b
 		}).Error("unable to delete queue")
 	}
 	delete(vhost.queues, queueName)
+	vhost.quLock.Unlock()
+
+	// the queue is out of the table; its consumers are told with the table unlocked: cancelling waits for a consumer
+	// that is in the middle of a delivery, and a delivery to a client that does not read its socket never ends -
+	// that must not keep every other connection out of the queue table
+	cancelConsumers()
 
 	return length, nil
 }
